@@ -2166,6 +2166,13 @@ class Exec(Engine):
             return wrap(self.ctx.app(self.ctx.fun(name, [INT], sort_of(p)), i), p)
         if p[0] == 'list' and p[1][0] in ('int', 'bool', 'str'):
             return st.alloc(HList(self.ctx.app(self.ctx.fun(name, [INT], sort_of(p)), i), p[1]))
+        if p[0] == 'reclist':
+            # a list of records held by element i: its own length and per-element field functions (the symbols are
+            # named after the index TERM: two syntactically different indices are treated as different elements)
+            tag = ''.join(ch if ch.isalnum() else '_' for ch in i.s)
+            n = self.ctx.app(self.ctx.fun(name + '_len', [INT], INT), i)
+            st.assume(Ge(n, IntV(0)))
+            return VRecList(n, p[1], '%s_at_%s' % (name, tag))
         if p[0] == 'obj' and p[1] in C.RECORDS:
             # nested record: its fields are functions of the same index
             vals = {g: self.field_fn(base, f + '__' + g, parse_type(gty), i, st) for g, gty in C.RECORDS[p[1]].items()}
